@@ -12,12 +12,15 @@ Three parts:
      -maxwarn combinations; audit hook on every open-for-writing; exit code and directory
      contents compared with the model of the gate (driver_c07 `cli`) and judged by the oracle.
 """
+import os
+os.environ.setdefault('COVERAGE_CORE', 'sysmon')   # coverage.py through sys.monitoring: no per-line tracer cost
 import ast
 import io
 import logging
 import runpy
 import shutil
 import tempfile
+import time
 from common import *
 
 chk = Check('C07')
@@ -26,10 +29,96 @@ chk.extra['rule'] = ('writer histories: random sequences of deferred opens (mode
                      'close over 1-5 names incl. backup-shaped names and pre-existing backups; CLI: martinize2 runs on '
                      'tier-0 inputs x warning-raising options x -maxwarn. A case is non-trivial if a destination '
                      'pre-exists, or a crash point lies strictly inside finalisation, or it is a CLI run with >= 1 '
-                     'warning; distinct = distinct protocol line')
-chk.lean(["VermouthProps.C07"], "driver_c07")
+                     'warning; distinct = distinct protocol line. CLI runs also cover every file-writing branch of entry() once blocked by '
+                     'the gate and once passed (see cli_branches), runs stopping before the gate, and per seed a few random '
+                     'combinations of the options that decide the set of files; white-box pending tables and direct calls of the '
+                     'library writers complete the stream')
+
+
+def extract_names():
+    """The string constants that decide the names of the files the CLI writes, read from the sources (AST):
+    the two `itp_paths` dictionaries of `entry`, `const=` of -go-write-file, `default=` of -name
+    (bin/martinize2); `"{}.itp".format(moltype)` (write_gmx_topology); `'chain_{}.ssd'` (_savefile_path)."""
+    tree = ast.parse(open(os.path.join(REPO, 'bin', 'martinize2')).read())
+    entry = next(n for n in tree.body if isinstance(n, ast.FunctionDef) and n.name == 'entry')
+    dicts = []
+
+    def visit(stmts, tests):
+        for st in stmts:
+            if isinstance(st, ast.If):
+                t = ast.unparse(st.test)
+                visit(st.body, tests + [t])
+                visit(st.orelse, tests + ['not (%s)' % t])
+            elif isinstance(st, (ast.For, ast.While, ast.With, ast.Try)):
+                for fld in ('body', 'orelse', 'finalbody'):
+                    visit(getattr(st, fld, []) or [], tests)
+                for h in getattr(st, 'handlers', []):
+                    visit(h.body, tests)
+            elif (isinstance(st, ast.Assign) and len(st.targets) == 1 and isinstance(st.targets[0], ast.Name)
+                  and st.targets[0].id == 'itp_paths' and isinstance(st.value, ast.Dict)):
+                d = {k.value: v.value for k, v in zip(st.value.keys, st.value.values)
+                     if isinstance(k, ast.Constant) and isinstance(v, ast.Constant)}
+                dicts.append((tests, d))
+    visit(entry.body, [])
+    go = [d for t, d in dicts if any('go_map' in x and not x.startswith('not (') for x in t)]
+    vs = [d for t, d in dicts if any('water_bias' in x and not x.startswith('not (') for x in t)
+          and not any('go_map' in x and not x.startswith('not (') for x in t)]
+    if len(go) != 1 or len(vs) != 1 or any(set(d) != {'atomtypes', 'nonbond_params'} for d in go + vs):
+        raise ValueError('itp_paths dictionaries of entry() not found as expected: %r' % (dicts,))
+    args = {}
+    for n in ast.walk(entry):
+        if (isinstance(n, ast.Call) and isinstance(n.func, ast.Attribute) and n.func.attr == 'add_argument' and n.args
+                and isinstance(n.args[0], ast.Constant)):
+            args[n.args[0].value] = {kw.arg: kw.value.value for kw in n.keywords if isinstance(kw.value, ast.Constant)}
+    names = {'goAtomtypes': go[0]['atomtypes'], 'goNonbond': go[0]['nonbond_params'],
+             'vsAtomtypes': vs[0]['atomtypes'], 'vsNonbond': vs[0]['nonbond_params'],
+             'goWriteConst': args['-go-write-file']['const'], 'defaultMolname': args['-name']['default']}
+    ttree = ast.parse(open(os.path.join(REPO, 'vermouth', 'gmx', 'topology.py')).read())
+    fn = next(n for n in ast.walk(ttree) if isinstance(n, ast.FunctionDef) and n.name == 'write_gmx_topology')
+    fmts = [n.func.value.value for n in ast.walk(fn)
+            if isinstance(n, ast.Call) and isinstance(n.func, ast.Attribute) and n.func.attr == 'format'
+            and isinstance(n.func.value, ast.Constant) and isinstance(n.func.value.value, str)
+            and len(n.args) == 1 and isinstance(n.args[0], ast.Name) and n.args[0].id == 'moltype']
+    if len(fmts) != 1 or not fmts[0].startswith('{}'):
+        raise ValueError('moltype ITP name format not found as expected: %r' % (fmts,))
+    names['itpSuffix'] = fmts[0][2:]
+    dtree = ast.parse(open(os.path.join(REPO, 'vermouth', 'dssp', 'dssp.py')).read())
+    fn = next(n for n in ast.walk(dtree) if isinstance(n, ast.FunctionDef) and n.name == '_savefile_path')
+    fmts = [n.value for n in ast.walk(fn) if isinstance(n, ast.Constant) and isinstance(n.value, str) and '{}' in n.value
+            and 'savedir' not in n.value]
+    if len(fmts) != 1 or fmts[0].count('{}') != 1:
+        raise ValueError('DSSP save file name format not found as expected: %r' % (fmts,))
+    names['ssdPrefix'], names['ssdSuffix'] = fmts[0].split('{}')
+    names['noOutpath'] = str(None)
+    if any(not isinstance(v, str) or not re.fullmatch(r'[A-Za-z0-9_.\-]*', v) for v in names.values()):
+        raise ValueError('unexpected characters in the extracted names: %r' % (names,))
+    return names
+
+
+def names_lean(names):
+    order = ['goAtomtypes', 'goNonbond', 'vsAtomtypes', 'vsNonbond', 'goWriteConst', 'defaultMolname', 'itpSuffix',
+             'ssdPrefix', 'ssdSuffix', 'noOutpath']
+    body = '\n'.join('    %s := "%s"' % (k, names[k]) for k in order)
+    return ('import VermouthModel.C07_Cli\n'
+            '/-! GENERATED by harness/c07.py on every run of the C07 check from bin/martinize2 (`itp_paths` dictionaries of\n'
+            '`entry`, `const=` of -go-write-file, `default=` of -name), vermouth/gmx/topology.py (`"{}.itp".format(moltype)`)\n'
+            "and vermouth/dssp/dssp.py (`'chain_{}.ssd'`).  Do not edit. -/\n"
+            'namespace C07\n\ndef generatedNames : Names :=\n  {' + body[3:] + ' }\n\nend C07\n')
+
+
+names_err = None
+try:
+    NAMES = extract_names()
+    chk.extra['extracted_names'] = NAMES
+    chk.lean(["VermouthProps.C07", "VermouthProps.C07_Cli"], "driver_c07", generated={'C07Names.lean': names_lean(NAMES)})
+except Exception as e:  # noqa  (the sources no longer have the shape the extraction expects)
+    names_err = 'cannot extract the output file names from the sources: %r' % (e,)
+    chk.lean(["VermouthProps.C07", "VermouthProps.C07_Cli"], "driver_c07")
 chk.trusted.append('harness/c07.py: name <-> Path parser (#name.N# pattern), crash injection shims in the '
                    'vermouth.file_writer namespace, audit hook, oracle')
+chk.trusted.append('harness/c07_static.py: AST classification of file-writing calls and name-based reachability; the table '
+                   'ALLOWED_UNDEFERRED of accounted-for undeferred sites; the stand-in DSSP executable and the observation hooks '
+                   '(gate, write_gmx_topology, run_dssp) of the CLI runs')
 chk.assumptions.append('file-system steps (rename, create, append, unlink) are atomic; temp directory disjoint from '
                        'destinations; one directory; text-mode data is ASCII (CR included)')
 
@@ -147,7 +236,7 @@ def static_open_sites(relpath):
     return sorted(set(out))
 
 
-static_errs = []
+static_errs = [names_err] if names_err else []
 static_summary = {}
 for rel in WRITER_MODULES:
     try:
@@ -169,6 +258,56 @@ chk.extra['static_open_sites'] = static_summary
 chk.case('static-open-sites', line('static', [[k, ' '.join(v)] for k, v in sorted(static_summary.items())]),
          'ok' if not static_errs else 'bypass', None, static_errs, True)
 
+
+# ---- A2. every call under vermouth/ and bin/ that can create, change or remove a file ------------------------
+import c07_static
+
+# The sites that write without the deferred writer, by (file, what is called, mode): how many there are and why
+# that is no violation.  No line numbers, no function or variable names: moving code or renaming does not matter.
+ALLOWED_UNDEFERRED = {
+    ('vermouth/file_writer.py', 'tempfile.mkstemp', '-'): (1, 'temp: the writer\'s temporary file (in the system temp directory)'),
+    ('vermouth/file_writer.py', 'os.fdopen', '?'): (1, 'temp: handle of the temporary'),
+    ('vermouth/file_writer.py', 'shutil.copy2', '-'): (1, 'temp: r+ copies the destination INTO the temporary'),
+    ('vermouth/file_writer.py', 'open', '?'): (2, 'temp: reopen of a pending temporary; pass-through of a read-only open'),
+    ('vermouth/file_writer.py', 'os.remove', '-'): (3, 'temp: removes temporaries (failed r+, after append, close())'),
+    ('vermouth/file_writer.py', 'shutil.move', '-'): (2, 'finalisation: backup move and move into place'),
+    ('vermouth/file_writer.py', 'open', 'ab'): (1, 'finalisation: append'),
+    ('vermouth/dssp/dssp.py', 'tempfile.mkstemp', '-'): (2, 'temp: DSSP/MDTraj input dump dssp_in_*.pdb in the working directory (F-C07-2)'),
+    ('vermouth/dssp/dssp.py', 'os.fdopen', 'w'): (2, 'temp: handle of the DSSP input dump'),
+    ('vermouth/dssp/dssp.py', 'os.remove', '-'): (2, 'temp: removes the DSSP input dump'),
+    ('vermouth/dssp/dssp.py', 'subprocess.run', '-'): (2, 'external: the DSSP executable (--version, -i <dump>)'),
+}
+sites_errs = []
+try:
+    SITES, scan_stats = c07_static.scan(REPO)
+except Exception as e:  # noqa
+    SITES, scan_stats = [], {}
+    sites_errs.append('cannot analyse the sources: %r' % (e,))
+by_key = {}
+for st in SITES:
+    chk.count('site_%s%s' % (st['cls'], '' if st['reachable'] else '_unreachable'))
+    by_key.setdefault((st['file'], st['callee'], st['mode'], st['cls']), []).append(st)
+inventory = []
+for (f, callee, mode, cls), lst in sorted(by_key.items()):
+    inventory.append([f, callee, mode, cls, len(lst), sum(1 for x in lst if x['reachable'])])
+    if cls != 'undeferred':
+        continue
+    allowed, why = ALLOWED_UNDEFERRED.get((f, callee, mode), (0, None))
+    if len(lst) > allowed:
+        where = ', '.join('%s:%d in %s()%s' % (x['file'], x['line'], x['function'], '' if x['reachable'] else ' [not reachable from the CLI]')
+                          for x in sorted(lst, key=lambda x: x['line']))
+        msg = ('%d call(s) of %s%s in %s write without the deferred writer, %d accounted for%s: %s'
+               % (len(lst), callee, '' if mode == '-' else '(mode %r)' % mode, f, allowed,
+                  ' (%s)' % why if why else '', where))
+        if any(x['reachable'] for x in lst):
+            sites_errs.append(msg)
+        else:
+            chk.notes.append('static: ' + msg)
+if not any(st['cls'] == 'debug' for st in SITES) and not sites_errs:
+    sites_errs.append('no explicitly undeferred debug dump found in bin/martinize2 (anchor moved?)')
+chk.extra['write_sites'] = {'stats': scan_stats, 'inventory': inventory}
+chk.case('static-write-sites', line('sites', [[a, b, c, d, str(e)] for a, b, c, d, e, g in inventory]),
+         'ok' if not sites_errs else 'undeferred-write-site', None, sites_errs, True)
 
 # ----------------------------------------------------------------------------
 # B. deferred writer histories
@@ -558,11 +697,116 @@ for ln, impl, mo, (cid, files, ops, out) in zip(lines, impls, models, meta):
         chk.count('hist_all_backups_1..N_taken')
     chk.case(cid, ln, impl, mo, errs, pre or inner, finding='F-C07-4' if (errs and sig4) else None)
 
+# ---- B2. white box: a pending table written by hand -------------------------------------------------------------
+# write() has two branches that no history of open() reaches (`write_error_branches_unreachable`): a stored mode
+# with none of a, w, + raises AssertionError ('r' in it) or KeyError; close() tolerates a temporary that has vanished.
+# Here the table is filled in directly and the result compared with `finalizeFuel` / `closeFs` on the same table.
+def run_raw(files, table, missing, do_close):
+    """files: {name: bytes}; table: [(name, mode, bytes)]; missing: indices whose temporary is deleted before the call"""
+    d = tempfile.mkdtemp(dir=SCRATCH)
+    td = os.path.join(d, '_tmp')
+    os.mkdir(td)
+    for n, c in files.items():
+        with open(os.path.join(d, n), 'wb') as f:
+            f.write(c)
+    W = type.__call__(DeferredFileWriter)
+    tmpno = {}
+    import pathlib
+    for k, (n, mode, data) in enumerate(table):
+        tp = os.path.join(td, 't%d' % k)
+        with open(tp, 'wb') as f:
+            f.write(data)
+        tmpno[tp] = k
+        W.open_files.append([tp, pathlib.Path(d) / n, mode])
+    for k in missing:
+        os.remove(os.path.join(td, 't%d' % k))
+    res = 'ok'
+    try:
+        if do_close:
+            W.close()
+        else:
+            W.write()
+    except AssertionError:
+        res = 'assertion'
+    except KeyError:
+        res = 'keyerror'
+    except Exception as e:  # noqa
+        res = 'exception:' + type(e).__name__
+    pending = [[tmpno[tp], os.path.basename(str(fp)), mode_kind(m)] for tp, fp, m in W.open_files]
+    user = snapshot_dir(d)
+    tmps = {'tmp/%d' % tmpno[os.path.join(td, n)]: open(os.path.join(td, n), 'rb').read() for n in os.listdir(td)}
+    W.open_files.clear()
+    shutil.rmtree(d, ignore_errors=True)
+    return res, pending, user, tmps
+
+
+rng = chk.rng('raw')
+raw_rows = []
+for i in range(400 if chk.thorough else 60):
+    base = rng.choice(BASES)
+    names = [base] + rng.sample([b for b in BASES if b != base], rng.randint(0, 2))
+    files = {n: bytes(rng.choice(b'abc\n') for _ in range(rng.randint(0, 6))) for n in names + ['#%s.1#' % base]
+             if rng.random() < 0.6}
+    do_close = rng.random() < 0.4
+    table = []
+    for n in rng.sample(names, rng.randint(1, len(names))):
+        if do_close or rng.random() < 0.6:
+            mode = rng.choice(['w', 'a', 'w+', 'a+', 'r+', 'wb', 'ab'])
+        else:
+            mode = rng.choice(['r', 'rb', 'x', 'xb', 'rt'])
+        table.append((n, mode, bytes(rng.choice(b'XYZ\n') for _ in range(rng.randint(0, 5)))))
+    missing = [k for k in range(len(table)) if do_close and rng.random() < 0.5]
+    res, pending, user, tmps = run_raw(files, table, missing, do_close)
+    fl = [[parse_name(n), b2s(c)] for n, c in files.items()]
+    fl += [[[2, k], b2s(data)] for k, (n, mode, data) in enumerate(table) if k not in missing]
+    pl = [[k, parse_name(n), mode_kind(mode)] for k, (n, mode, data) in enumerate(table)]
+    snap = dict((k, b2s(v)) for k, v in user.items())
+    snap.update((k, b2s(v)) for k, v in tmps.items())
+    snap_enc = enc([[k, snap[k]] for k in sorted(snap)])
+    errs = []
+    if do_close:
+        ln = line('rawclose', fl, pl)
+        impl = snap_enc if res == 'ok' else res
+        chk.count('raw_close' + ('_tmp_vanished' if missing else ''))
+        if res != 'ok':
+            errs.append('close() raised %s on a pending table with vanished temporaries %s' % (res, missing))
+        if user != files:
+            errs.append('close() changed the destination directory')
+        if tmps or pending:
+            errs.append('close() left temporaries %s / pending entries %s' % (sorted(tmps), pending))
+    else:
+        ln = line('rawfin', fl, pl, None)
+        impl = enc_list([enc(res), enc(pending), snap_enc])
+        bad = [k for k, (n, mode, data) in enumerate(table) if not any(c in mode for c in 'wa+')]
+        chk.count('raw_write_' + res)
+        want = 'ok' if not bad else ('assertion' if 'r' in table[bad[0]][1] else 'keyerror')
+        if res != want:
+            errs.append('write() on a table whose entry %s has mode %r: %s, expected %s'
+                        % (bad[:1], table[bad[0]][1] if bad else None, res, want))
+        # whatever happened: no pre-existing file is lost, entries behind the offending one stay pending with their data
+        for n, c in files.items():
+            cands = closure_names(n, user)
+            if not any(user[m] == c or (user[m].startswith(c) and any(t[0] == m and 'a' in t[1] for t in table)) for m in cands):
+                errs.append('pre-existing file %r lost by write() (%s)' % (n, res))
+        if bad:
+            for k in range(bad[0] + 1, len(table)):
+                if [k, table[k][0], mode_kind(table[k][1])] not in pending or tmps.get('tmp/%d' % k) != table[k][2]:
+                    errs.append('entry %d behind the offending one is no longer pending with its data' % k)
+    raw_rows.append(('raw-%d' % i, ln, impl, errs, bool(files)))
+raw_models = chk.drv.ask([r[1] for r in raw_rows]) if chk.lean_ok else [None] * len(raw_rows)
+for (cid, ln, impl, errs, nontriv), mo in zip(raw_rows, raw_models):
+    chk.case(cid, ln, impl, mo, errs, nontriv)
+
 # ----------------------------------------------------------------------------
-# C. the CLI gate
+# C. the CLI: gate and set of output files
 # ----------------------------------------------------------------------------
 import hashlib as _hl
-from vermouth.log_helpers import CountingHandler, ignore_warnings_and_count
+import multiprocessing
+import stat
+import vermouth.log_helpers as LH
+import vermouth.gmx.topology as GT
+import vermouth.dssp.dssp as DS
+from vermouth.log_helpers import CountingHandler
 
 AUDIT = {'on': False, 'events': [], 'finalising': False}
 
@@ -591,6 +835,13 @@ M2PATH = os.path.join(REPO, 'bin', 'martinize2')
 M2 = runpy.run_path(M2PATH, run_name='verif_m2')
 logging.getLogger('vermouth').handlers[:] = []
 T0 = os.path.join(REPO, 'vermouth', 'tests', 'data', 'integration_tests', 'tier-0')
+DSSP_TMP_RE = re.compile(r'dssp_in_.*\.pdb')
+try:
+    import mdtraj  # noqa
+    HAVE_MDTRAJ = True
+except Exception:  # noqa
+    HAVE_MDTRAJ = False
+    chk.notes.append('mdtraj not importable: the -dssp (mdtraj) runs, F-C07-2 included, were not made')
 
 
 def sha(b):
@@ -598,15 +849,18 @@ def sha(b):
 
 
 def run_cli(argv, pre):
-    """Run bin/martinize2 in-process in a fresh directory holding the files `pre` (name -> bytes)."""
+    """Run bin/martinize2 in-process in a fresh directory holding the files `pre` (name -> bytes).
+    Observation hooks (none of them changes a result): DeferredFileWriter.open/.write, the gate's call of
+    ignore_warnings_and_count, the entry of write_gmx_topology, run_dssp and run_mdtraj, and the audit hook."""
     d = tempfile.mkdtemp(dir=SCRATCH, prefix='run_')
     for n, c in pre.items():
         with open(os.path.join(d, n), 'wb') as f:
             f.write(c)
     W = DeferredFileWriter()
     W.close()
-    rec = {'opens': [], 'gate': None}
+    rec = {'opens': [], 'gate': None, 'gate_leftover': None, 'gate_entries': None, 'top': None, 'dssp': [], 'gate_calls': 0}
     orig_open, orig_write = DeferredFileWriter.open, DeferredFileWriter.write
+    orig_iwc, orig_top, orig_rd, orig_rm = LH.ignore_warnings_and_count, GT.write_gmx_topology, DS.run_dssp, DS.run_mdtraj
 
     def pending_snapshot():
         return [(os.path.relpath(str(fp), d), mode_kind(m), sha(open(tp, 'rb').read())) for tp, fp, m in W.open_files]
@@ -621,14 +875,45 @@ def run_cli(argv, pre):
         AUDIT['finalising'] = True
         return orig_write(self)
 
+    def iwc_rec(counter, specifications, *a, **k):
+        res = orig_iwc(counter, specifications, *a, **k)
+        rec['gate_calls'] += 1
+        rec['gate_leftover'] = res
+        rec['gate_entries'] = [[lvl, typ, cnt] for lvl, dd in counter.counts.items() for typ, cnt in dd.items()]
+        return res
+
+    def top_rec(system, top_path, *a, **k):
+        keys = [key for key in ('atomtypes', 'nonbond_params') if key in system.gmx_topology_params]
+        rec['top'] = {'moltypes': [str(m.meta.get('moltype')) for m in system.molecules], 'keys': keys,
+                      'itp_paths': k.get('itp_paths')}
+        return orig_top(system, top_path, *a, **k)
+
+    def chains_of(system):
+        out = []
+        for molecule in system.molecules:
+            first = next(iter(molecule.nodes), None)
+            ch = molecule.nodes[first].get('chain') if first is not None else None
+            if ch is not None and ch not in out:
+                out.append(ch)
+        return out
+
+    def rd_rec(system, *a, **k):
+        rec['dssp'].append(['exe', chains_of(system)])
+        return orig_rd(system, *a, **k)
+
+    def rm_rec(system, *a, **k):
+        rec['dssp'].append(['mdtraj', chains_of(system)])
+        return orig_rm(system, *a, **k)
+
     lg = logging.getLogger('vermouth')
     lg.handlers[:] = []
     old = (sys.argv, sys.stderr, sys.stdout, os.getcwd())
     sys.argv, sys.stderr, sys.stdout = ['martinize2'] + argv, io.StringIO(), io.StringIO()
     os.chdir(d)
     DeferredFileWriter.open, DeferredFileWriter.write = open_rec, write_rec
+    LH.ignore_warnings_and_count, GT.write_gmx_topology, DS.run_dssp, DS.run_mdtraj = iwc_rec, top_rec, rd_rec, rm_rec
     AUDIT['events'], AUDIT['finalising'], AUDIT['on'] = [], False, True
-    code, exited, raw_code = 0, False, None
+    code, exited, raw_code, exc = 0, False, None, ''
     try:
         runpy.run_path(M2PATH, run_name='__main__')
     except SystemExit as e:
@@ -638,9 +923,11 @@ def run_cli(argv, pre):
         code = (e.code & 0xFF) if isinstance(e.code, int) else (0 if e.code is None else 1)
     except BaseException as e:  # noqa
         code = 'exception:%s' % type(e).__name__
+        exc = str(e)[:300]
     finally:
         AUDIT['on'] = False
         DeferredFileWriter.open, DeferredFileWriter.write = orig_open, orig_write
+        LH.ignore_warnings_and_count, GT.write_gmx_topology, DS.run_dssp, DS.run_mdtraj = orig_iwc, orig_top, orig_rd, orig_rm
         log_err = sys.stderr.getvalue()
         sys.argv, sys.stderr, sys.stdout = old[:3]
         os.chdir(old[3])
@@ -652,15 +939,19 @@ def run_cli(argv, pre):
     counters = [h for h in lg.handlers if isinstance(h, CountingHandler)]
     entries = [[lvl, typ, cnt] for h in counters[:1] for lvl, dd in h.counts.items() for typ, cnt in dd.items()]
     lg.handlers[:] = []
+    left_pending = len(W.open_files)
     W.close()
     after = snapshot_dir(d)
+    subdirs = sorted(n for n in os.listdir(d) if os.path.isdir(os.path.join(d, n)))
     events = [(os.path.realpath(p) if os.path.isabs(p) else os.path.realpath(os.path.join(d, p)), m, fin)
               for p, m, fin in AUDIT['events']]
     inside = [(os.path.relpath(p, os.path.realpath(d)), m, fin) for p, m, fin in events
               if p.startswith(os.path.realpath(d) + os.sep)]
     shutil.rmtree(d, ignore_errors=True)
-    return {'code': code, 'exited': exited, 'raw_code': raw_code, 'after': after, 'entries': entries, 'opens': rec['opens'], 'gate': rec['gate'],
-            'finalised': finalised, 'inside': inside, 'counter': counters[0] if counters else None, 'log': log_err}
+    rec.update({'code': code, 'exited': exited, 'raw_code': raw_code, 'after': after, 'entries': entries,
+                'finalised': finalised, 'inside': inside, 'counter': counters[0] if counters else None,
+                'log': log_err, 'exc': exc, 'subdirs': subdirs, 'left_pending': left_pending})
+    return rec
 
 
 def leftover_oracle(entries, specs, level=logging.WARNING):
@@ -686,11 +977,21 @@ def leftover_oracle(entries, specs, level=logging.WARNING):
     return total + max(0, rest - blanket)
 
 
+# ---- inputs -------------------------------------------------------------------------------------
+INPUTS = os.path.join(SCRATCH, 'inputs')
+os.makedirs(INPUTS, exist_ok=True)
+PROTS = ['mini-protein1_betasheet', 'dipro-termini', 'mini-protein2_helix', 'mini-protein3_trp-cage']
+
+
+def aa(prot):
+    return os.path.join(T0, prot, 'aa.pdb')
+
+
 def altloc_input(prot, n=1):
     """copy of the test structure with `n` alternate-location-B records, each of which gives one
     'pdb-alternate' warning, logged before every other warning of the run (n = 1: after the first CA;
     otherwise spread evenly over all ATOM records)"""
-    lines = open(os.path.join(T0, prot, 'aa.pdb')).readlines()
+    lines = open(aa(prot)).readlines()
     out = []
     if n == 1:
         done = False
@@ -708,104 +1009,64 @@ def altloc_input(prot, n=1):
                 copies = n // natoms + (1 if k < n % natoms else 0)
                 out.extend([l[:16] + 'B' + l[17:]] * copies)
                 k += 1
-    path = os.path.join(SCRATCH, 'altloc%d_%s.pdb' % (n, prot))
-    with open(path, 'w') as f:
-        f.writelines(out)
+    path = os.path.join(INPUTS, 'altloc%d_%s.pdb' % (n, prot))
+    if not os.path.exists(path):
+        with open(path, 'w') as f:
+            f.writelines(out)
     return path
 
 
-def cli_case(cid, prot, opts, maxwarn_groups, pre_names, verbose=False, write_dump=None, altloc=False):
-    aa = altloc_input(prot, int(altloc)) if altloc else os.path.join(T0, prot, 'aa.pdb')
-    argv = ['-f', aa, '-x', 'cg.pdb', '-o', 'topol.top'] + opts
-    for g in maxwarn_groups:
-        argv += ['-maxwarn'] + g
-    if verbose:
-        argv.append('-v')
-    if write_dump:
-        argv += ['-write-graph', write_dump]
-    pre = {n: ('old %s\n' % n).encode() * 3 for n in pre_names}
-    r = run_cli(argv, pre)
-    specs = [[M2['maxwarn'](s) for s in g] for g in maxwarn_groups]
-    impl_left = ignore_warnings_and_count(r['counter'], specs) if r['counter'] is not None else None
-    # the error record logged by the gate itself is counted after the decision; remove it for the model input
-    entries = r['entries']
-    gate_err = 1 if (r['exited'] and not r['finalised']) else 0
-    ent_gate = []
-    for l, t, c in entries:
-        if l == logging.ERROR and t == 'general' and gate_err:
-            c -= 1
-            gate_err = 0
-        if c:
-            ent_gate.append([l, t, c])
-    impl_left_gate = leftover_oracle(ent_gate, specs)
-    # `deferred_open` is a bound method created at import time, so the individual calls cannot be
-    # intercepted without touching every writer module; the history given to the model is reconstructed
-    # from the pending table observed at the gate (one open per entry, stored mode, final contents)
-    opens = [[parse_name(n), k, h] for n, k, h in r['gate']]
-    files = [[parse_name(n), sha(c)] for n, c in pre.items()]
-    ln = line('cli', logging.WARNING, ent_gate, [[[t, c] for t, c in g] for g in specs], files, opens)
-    allowed_extra = set()
-    if write_dump:
-        allowed_extra.add(write_dump)
-    after_user = {n: sha(c) for n, c in r['after'].items() if n not in allowed_extra and not re.fullmatch(r'dssp_in_.*\.pdb', n)}
-    impl = enc_list([enc(r['code']) if isinstance(r['code'], int) else enc(str(r['code'])), enc(impl_left_gate),
-                     enc([[n, after_user[n]] for n in sorted(after_user)])])
-    # ---- oracle
-    errs, finding = [], None
-    new = sorted(set(r['after']) - set(pre))
-    changed = sorted(n for n in pre if r['after'].get(n) != pre[n])
-    if isinstance(r['code'], str):
-        errs.append('martinize2 raised %s' % r['code'])
-    if impl_left_gate:
-        if r['code'] == 0:
-            errs.append('%d warnings left after -maxwarn but exit status 0 (sys.exit(%r))' % (impl_left_gate, r['raw_code']))
-        if r['finalised']:
-            errs.append('%d warnings left after -maxwarn but DeferredFileWriter.write() was called' % impl_left_gate)
-        unexpected = [n for n in new if n not in allowed_extra]
-        if unexpected or changed:
-            if (verbose and r['code'] == 2 and not changed and unexpected
-                    and all(re.fullmatch(r'dssp_in_.*\.pdb', n) for n in unexpected)):
-                finding = 'F-C07-2'
-            errs.append('run with %d unwaived warnings (exit %s) left new files %s / changed files %s'
-                        % (impl_left_gate, r['code'], unexpected, changed))
-    else:
-        if r['code'] != 0:
-            errs.append('no warnings left after -maxwarn but exit code %s' % (r['code'],))
-        for n, k, h in r['gate']:
-            if n not in r['after'] or sha(r['after'][n]) != h:
-                errs.append('output %r does not hold what was written for it' % n)
-            if n in pre:
-                bk = first_free_backup(n, pre)
-                if r['after'].get(bk) != pre[n]:
-                    errs.append('pre-existing %r not kept byte for byte at %r' % (n, bk))
-        dests = {n for n, k, h in r['gate']}
-        for n in pre:
-            if n not in dests and r['after'].get(n) != pre[n]:
-                errs.append('pre-existing unrelated file %r changed' % n)
-        if not r['gate']:
-            errs.append('successful run wrote nothing through the deferred writer')
-    for pth, m, fin in r['inside']:
-        if fin:
-            continue
-        if re.fullmatch(r'dssp_in_.*\.pdb', pth) or pth in allowed_extra:
-            continue
-        errs.append('file %r in the run directory opened for writing (%s) before the gate: a writer bypasses the '
-                    'deferred writer' % (pth, m))
-    nwarn = sum(c for l, t, c in ent_gate if l >= logging.WARNING)
-    chk.count('cli_exit=%s' % (r['code'],))
-    chk.count('cli_warnings=%d' % min(nwarn, 3))
-    chk.count('cli_leftover=%d' % (impl_left_gate if impl_left_gate % 256 == 0 else min(impl_left_gate, 3)))
-    chk.count('cli_deferred_outputs=%d' % len(r['gate']))
-    if pre:
-        chk.count('cli_preexisting_outputs')
-    return cid, ln, impl, errs, nwarn >= 1, finding
+def chains_input(prot, chains='AB', shift=60.0):
+    """the test structure repeated once per chain letter, translated along x: several identical molecules"""
+    lines = [l for l in open(aa(prot)) if l.startswith('ATOM')]
+    out = []
+    for ci, ch in enumerate(chains):
+        for l in lines:
+            out.append(l[:21] + ch + l[22:30] + '%8.3f' % (float(l[30:38]) + shift * ci) + l[38:])
+        out.append('TER\n')
+    out.append('END\n')
+    path = os.path.join(INPUTS, 'chains%s_%s.pdb' % (chains, prot))
+    if not os.path.exists(path):
+        with open(path, 'w') as f:
+            f.writelines(out)
+    return path
+
+
+FAKE_DSSP = '''#!@PY@
+# stand-in for the DSSP executable (C07 check): coil/helix/strand by position, DSSP 2/3 output layout
+import sys
+VERSION = '@VERSION@'
+if '--version' in sys.argv:
+    print('mkdssp version ' + VERSION)
+    sys.exit(0)
+path = sys.argv[sys.argv.index('-i') + 1]
+seen = []
+for l in open(path):
+    if l.startswith(('ATOM', 'HETATM')):
+        key = (l[21], l[22:27])
+        if key not in seen:
+            seen.append(key)
+print('==== Secondary Structure Definition by the program DSSP (stand-in) ==== .')
+print('  #  RESIDUE AA STRUCTURE BP1 BP2  ACC')
+for i, (ch, rid) in enumerate(seen, 1):
+    print('%5d%5s %s A  %s' % (i, rid.strip()[:4].rjust(4), ch, ' HE'[i % 3 if len(seen) > 6 else 0]) + ' ' * 20)
+'''
+
+
+def fake_dssp(version):
+    path = os.path.join(INPUTS, 'dssp_' + version.replace('.', '_'))
+    if not os.path.exists(path):
+        with open(path, 'w') as f:
+            f.write(FAKE_DSSP.replace('@PY@', sys.executable).replace('@VERSION@', version))
+        os.chmod(path, 0o755)
+    return path
 
 
 def ffwarn_dir():
     """-ff-dir with a link for martini3001 whose `[ warning ]` section fires on two consecutive prolines; the
     warning is stored in molecule.log_entries by DoLinks and only reaches the logger (and the counter) in the
     replay loop right before the output is written"""
-    d = os.path.join(SCRATCH, 'ffdir')
+    d = os.path.join(INPUTS, 'ffdir')
     os.makedirs(os.path.join(d, 'martini3001'), exist_ok=True)
     with open(os.path.join(d, 'martini3001', 'extra.ff'), 'w') as f:
         f.write('[ link ]\nresname "PRO"\n[ atoms ]\nBB { }\n+BB { }\n[ edges ]\nBB +BB\n[ warning ]\n'
@@ -813,83 +1074,612 @@ def ffwarn_dir():
     return d
 
 
-PROTS = ['mini-protein1_betasheet', 'dipro-termini', 'mini-protein2_helix', 'mini-protein3_trp-cage']
+DSSP_OK, DSSP_OLD = fake_dssp('3.0.0'), fake_dssp('9.9.9')   # 9.9.9: one 'DSSP-version' warning per call
+GO_MAP = os.path.join(VERIF, 'corpus', 'c07_trpcage_contacts.map')   # contact map of mini-protein3_trp-cage
+EMPTY_DIR = os.path.join(INPUTS, 'emptydir')
+os.makedirs(EMPTY_DIR, exist_ok=True)
+NOT_A_DIR = os.path.join(INPUTS, 'not_a_dir')
+open(NOT_A_DIR, 'w').write('x\n')
+
+
+# ---- B3. the library writers called directly -----------------------------------------------------------------------
+# write_gro is not reachable from the CLI (entry always calls write_pdb, whatever the extension of -x); the branches
+# of write_atomtypes / write_nonbond_params for conditionals, groups, comments and C6C12 and the error paths of
+# run_dssp are not reached by the CLI runs either.  Each writer is called on a small system in a scratch directory:
+# the directory must be unchanged after the call and hold exactly what was written after write(); the history
+# (one open in mode w with what was written, then finalise) is compared with the Lean model.
+import vermouth
+import vermouth.gmx.gro as GRO
+import vermouth.gmx.topology as GT
+import vermouth.dssp.dssp as DS
+import vermouth.pdb.pdb as PDB
+from vermouth.gmx.topology import Atomtype, NonbondParam
+quiet_vermouth_logs()
+
+
+def small_system(velocities=False, force_field=True):
+    system = vermouth.System()
+    vermouth.PDBInput(os.path.join(REPO, 'vermouth', 'tests', 'data', 'integration_tests', 'tier-0', 'dipro-termini', 'aa.pdb')).run_system(system)
+    system.meta['header'] = ['written by the C07 check']
+    for mol in system.molecules:
+        mol.meta['moltype'] = 'lib_0'
+        mol.nrexcl = 1
+        for idx in mol.nodes:
+            mol.nodes[idx]['chain'] = 'A'
+            mol.nodes[idx].update(atype='P1', charge=0.0, mass=72, charge_group=1)
+            if velocities:
+                mol.nodes[idx]['velocity'] = [0.1, 0.2, 0.3]
+        if not force_field:
+            mol._force_field = None
+    return system
+
+
+def with_params(system):
+    mol = system.molecules[0]
+    n0 = next(iter(mol.nodes))
+    system.gmx_topology_params['atomtypes'] += [
+        Atomtype(molecule=mol, node=n0, sigma=0.47, epsilon=3.5, meta={}),
+        Atomtype(molecule=mol, node=n0, sigma=0.5, epsilon=1.0, meta={'ifdef': 'FLEX', 'group': 'grp', 'comment': ['c1', 'c2']}),
+        Atomtype(molecule=mol, node=n0, sigma=0.5, epsilon=1.0, meta={'ifndef': 'STIFF'})]
+    system.gmx_topology_params['nonbond_params'] += [
+        NonbondParam(atoms=('P1', 'P2'), sigma=0.47, epsilon=3.5, meta={'comment': ['x']}),
+        NonbondParam(atoms=('P1',), sigma=0.5, epsilon=1.0, meta={'ifdef': 'FLEX', 'group': 'self'}),
+        NonbondParam(atoms=('P3', 'P1'), sigma=0.5, epsilon=1.0, meta={'ifndef': 'STIFF'})]
+    return system
+
+
+DSSP_FAIL = os.path.join(SCRATCH, 'dssp_fail')
+with open(DSSP_FAIL, 'w') as f:
+    f.write("#!/bin/sh\ncase \"$1\" in --version) echo 'mkdssp version 3.0.0';; *) echo broken >&2; exit 3;; esac\n")
+os.chmod(DSSP_FAIL, 0o755)
+DSSP_NOVERSION = os.path.join(SCRATCH, 'dssp_noversion')
+with open(DSSP_NOVERSION, 'w') as f:
+    f.write("#!/bin/sh\necho 'no version here'\n")
+os.chmod(DSSP_NOVERSION, 0o755)
+
+
+def lib_case(cid, call, dest, pre_names=(), expect_exc=None, keeps=None, undeferred=False):
+    """call(dest_path) writes `dest` (a name in a fresh directory)"""
+    d = tempfile.mkdtemp(dir=SCRATCH)
+    pre = {n: ('old %s\n' % n).encode() for n in pre_names}
+    for n, c in pre.items():
+        with open(os.path.join(d, n), 'wb') as f:
+            f.write(c)
+    W = DeferredFileWriter()
+    W.close()
+    cwd = os.getcwd()
+    os.chdir(d)
+    errs, exc = [], None
+    try:
+        call(dest)
+    except Exception as e:  # noqa
+        exc = type(e).__name__
+    finally:
+        os.chdir(cwd)
+    mid = snapshot_dir(d)
+    pend = [(os.path.basename(str(fp)), mode_kind(m), open(tp, 'rb').read()) for tp, fp, m in W.open_files]
+    dests = [dest] if isinstance(dest, str) else list(dest)
+    if exc != expect_exc:
+        errs.append('%s: raised %r, expected %r' % (cid, exc, expect_exc))
+    new_mid = sorted(set(mid) - set(pre))
+    if undeferred:
+        if dests[0] not in mid:
+            errs.append('defer_writing=False did not write %r at once' % dest)
+    else:
+        if [n for n in new_mid if not (keeps and re.fullmatch(keeps, n))] or any(mid.get(n) != pre[n] for n in pre):
+            errs.append('the writer changed the directory before finalisation: new %s' % new_mid)
+        if expect_exc is None and [p[0] for p in pend] != dests:
+            errs.append('pending table after the call: %s, expected %r' % ([p[0] for p in pend], dests))
+    W.write()
+    after = snapshot_dir(d)
+    shutil.rmtree(d, ignore_errors=True)
+    for n, k, c in pend:
+        if after.get(n) != c:
+            errs.append('%r does not hold what was written for it' % n)
+        if n in pre and after.get(first_free_backup(n, pre)) != pre[n]:
+            errs.append('old %r not kept at its first free backup name' % n)
+    chk.count('lib_' + cid.split('/')[0])
+    files = [[parse_name(n), b2s(c)] for n, c in pre.items()]
+    ops = [[0, parse_name(n), k, b2s(c)] for n, k, c in pend] + [[1, None]]
+    ln = line('run', files, ops)
+    snaps = []
+    acc = dict((n, b2s(c)) for n, c in pre.items())
+    pl = []
+    for i, (n, k, c) in enumerate(pend):
+        acc['tmp/%d' % i] = b2s(c)
+        pl.append([i, n, k])
+        snaps.append(enc_list(['ok', enc(pl), enc([[x, acc[x]] for x in sorted(acc)])]))
+    fin = dict((n, b2s(c)) for n, c in after.items() if not (keeps and re.fullmatch(keeps, n)))
+    snaps.append(enc_list(['ok', enc([]), enc([[x, fin[x]] for x in sorted(fin)])]))
+    return cid, ln, enc_list(snaps), errs, undeferred or exc is not None
+
+
+lib_rows = []
+SYS, SYSV, SYSP = small_system(), small_system(velocities=True), with_params(small_system())
+lib_rows.append(lib_case('write_gro', lambda p: GRO.write_gro(SYS, p, box=(1, 2, 3)), 'out.gro', ['out.gro', '#out.gro.1#']))
+lib_rows.append(lib_case('write_gro/velocities', lambda p: GRO.write_gro(SYSV, p, precision=4, title='t'), 'v.gro'))
+lib_rows.append(lib_case('write_gro/undeferred', lambda p: GRO.write_gro(SYS, p, defer_writing=False), 'now.gro', undeferred=True))
+lib_rows.append(lib_case('write_pdb', lambda p: PDB.write_pdb(SYS, p), 'out.pdb', ['out.pdb']))
+lib_rows.append(lib_case('write_pdb/undeferred', lambda p: PDB.write_pdb(SYS, p, defer_writing=False), 'now.pdb', undeferred=True))
+lib_rows.append(lib_case('write_atomtypes', lambda p: GT.write_atomtypes(SYSP, p), 'at.itp', ['at.itp']))
+lib_rows.append(lib_case('write_atomtypes/C6C12', lambda p: GT.write_atomtypes(SYSP, p, C6C12=True), 'at6.itp'))
+lib_rows.append(lib_case('write_nonbond_params', lambda p: GT.write_nonbond_params(SYSP, p), 'nb.itp', ['nb.itp', '#nb.itp.1#']))
+lib_rows.append(lib_case('write_nonbond_params/C6C12', lambda p: GT.write_nonbond_params(SYSP, p, C6C12=True), 'nb6.itp'))
+lib_rows.append(lib_case('write_contacts', lambda p: __import__('vermouth.rcsu.contact_map', fromlist=['x'])._write_contacts(p, [], [], None), 'c.out', ['c.out']))
+lib_rows.append(lib_case('run_dssp/savefile', lambda p: DS.run_dssp(SYS, executable=DSSP_OK, savedir='.'), 'chain_A.ssd', ['chain_A.ssd']))
+for cid_, exe_, exc_, keeps_ in (('run_dssp/no-savedir', DSSP_OK, None, None), ('run_dssp/missing-exe', os.path.join(SCRATCH, 'absent'), 'DSSPError', None),
+                                 ('run_dssp/no-version', DSSP_NOVERSION, 'DSSPError', None),
+                                 # "If an error is encountered ... preserve the DSSP input file": kept on purpose
+                                 ('run_dssp/failing-exe', DSSP_FAIL, 'DSSPError', r'dssp_in_.*\.pdb')):
+    r_ = lib_case(cid_, lambda p, exe_=exe_: DS.run_dssp(SYS, executable=exe_, savedir=None), 'unused', expect_exc=exc_, keeps=keeps_)
+    # nothing is pending in these calls
+    lib_rows.append(r_[:3] + ([e for e in r_[3] if 'pending table' not in e],) + r_[4:])
+lib_rows.append(lib_case('write_gmx_topology/no-force-field',
+                         lambda p: GT.write_gmx_topology(small_system(force_field=False), 'lib.top', itp_paths=[]), ['lib_0.itp', 'lib.top']))
+lib_rows.append(lib_case('write_gmx_topology/empty', lambda p: GT.write_gmx_topology(vermouth.System(), p), 'e.top', expect_exc='ValueError'))
+lib_models = chk.drv.ask([r[1] for r in lib_rows]) if chk.lean_ok else [None] * len(lib_rows)
+for (cid, ln, impl, errs, special), mo in zip(lib_rows, lib_models):
+    chk.case('lib-' + cid, ln, impl, None if special else mo, errs, True)
+
+
+
+# ---- one CLI job ----------------------------------------------------------------------------------
+def mkjob(cid, branch, inp, extra=(), x='cg.pdb', o='topol.top', maxwarn=(), pre=(), name=None, sep=False,
+          go='off', go_write=None, water_bias=False, dssp='off', v=0, graph=None, repair=None, canon=None,
+          abort=None, need_warn=False, want_left=None, cost=1.0):
+    """A CLI run.  The options that decide WHICH files are written are structured (they are the input of the
+    Lean model `outputs`); everything else is in `extra`.  abort: None, or 'usage' (argparse error, exit 2 before
+    anything is read), 'info' (-list-*: exit 0, nothing written), 'raise' (uncaught exception)."""
+    return dict(cid=cid, branch=branch, inp=inp, extra=list(extra), x=x, o=o, maxwarn=[list(g) for g in maxwarn],
+                pre=list(pre), name=name, sep=sep, go=go, go_write=go_write, water_bias=water_bias, dssp=dssp, v=v,
+                graph=graph, repair=repair, canon=canon, abort=abort, need_warn=need_warn, want_left=want_left,
+                cost=cost)
+
+
+def build_argv(j):
+    argv = []
+    if j['inp'] is not None:
+        argv += ['-f', j['inp']]
+    if j['x'] is not None:
+        argv += ['-x', j['x']]
+    if j['o'] is not None:
+        argv += ['-o', j['o']]
+    argv += j['extra']
+    if j['name'] is not None:
+        argv += ['-name', j['name']]
+    if j['sep']:
+        argv.append('-sep')
+    if j['go'] == 'internal':
+        argv.append('-go')
+    elif j['go'] != 'off':
+        argv += ['-go', j['go']]
+    if j['go_write'] is True:
+        argv.append('-go-write-file')
+    elif j['go_write']:
+        argv += ['-go-write-file', j['go_write']]
+    if j['dssp'] == 'mdtraj':
+        argv.append('-dssp')
+    elif j['dssp'] != 'off':
+        argv += ['-dssp', j['dssp']]
+    argv += ['-v'] * j['v']
+    for opt, key in (('-write-graph', 'graph'), ('-write-repair', 'repair'), ('-write-canon', 'canon')):
+        if j[key] is not None:
+            argv += [opt, j[key]]
+    if j['water_bias']:
+        argv += ['-water-bias', '-water-bias-eps', 'C:2.1', 'H:3.6']
+    for g in j['maxwarn']:
+        argv += ['-maxwarn'] + g
+    return argv
+
+
+def cli_eval(j):
+    try:
+        return cli_eval_(j)
+    except BaseException:  # noqa  (a failure of the harness itself in a worker must end in a verdict, not in a hang)
+        import traceback
+        return {'cid': j['cid'], 'ln': line('cli-harness-failure', j['cid']), 'impl': 'harness-failure', 'errs':
+                ['harness: worker failed: ' + traceback.format_exc()[-1500:]], 'nontrivial': False, 'finding': None,
+                'counts': ['cli_worker_failure'], 'use_model': False, 'facts': None, 'kind': 'failed',
+                'branch': j['branch'], 'argv': [], 'ln2': None, 'impl2': None, 'cov': {}}
+
+
+def cli_eval_(j):
+    """run one job and judge it; executed in a forked worker.  Returns plain data."""
+    argv = build_argv(j)
+    pre = {n: ('old %s\n' % n).encode() * 3 for n in j['pre']}
+    r = run_cli(argv, pre)
+    counts = []
+    specs = [[M2['maxwarn'](s) for s in g] for g in j['maxwarn']]
+    dumps = [j[k] for k in ('graph', 'repair', 'canon') if j[k] is not None]
+    reached = r['gate_calls'] > 0
+    # counter as the gate saw it; fallback (gate hook not called): the final counter minus the gate's own error record
+    if r['gate_entries'] is not None:
+        ent_gate = [e for e in r['gate_entries'] if e[2]]
+    else:
+        gate_err = 1 if (r['exited'] and not r['finalised'] and r['code'] == 2 and not j['abort']) else 0
+        ent_gate = []
+        for l, t, c in r['entries']:
+            if l == logging.ERROR and t == 'general' and gate_err:
+                c -= 1
+                gate_err = 0
+            if c:
+                ent_gate.append([l, t, c])
+    left = leftover_oracle(ent_gate, specs)
+    nwarn = sum(c for l, t, c in ent_gate if l >= logging.WARNING)
+    new = sorted(set(r['after']) - set(pre))
+    changed = sorted(n for n in pre if r['after'].get(n) != pre[n])
+    artefacts = [n for n in new if DSSP_TMP_RE.fullmatch(n)]
+    # ---- model input (`cli`: the gate on the history reconstructed from the pending table at the gate)
+    opens = [[parse_name(n), k, h] for n, k, h in r['gate']]
+    hidden = set(dumps) | set(artefacts)
+    files = [[parse_name(n), sha(c)] for n, c in pre.items() if n not in hidden]
+    ln = line('cli', logging.WARNING, ent_gate, [[[t, c] for t, c in g] for g in specs], files, opens)
+    after_user = {n: sha(c) for n, c in r['after'].items() if n not in hidden}
+    impl = enc_list([enc(r['code']) if isinstance(r['code'], int) else enc(str(r['code'])), enc(left),
+                     enc([[n, after_user[n]] for n in sorted(after_user)])])
+    use_model = j['abort'] is None and reached and not isinstance(r['code'], str) and r['gate_calls'] == 1
+    # ---- oracle
+    errs, finding = [], None
+    if r['subdirs']:
+        errs.append('the run created directories %s' % r['subdirs'])
+    if r['gate_leftover'] is not None and r['gate_leftover'] != left:
+        errs.append('the gate computed %r leftover warnings, the closed form on the counter gives %d' % (r['gate_leftover'], left))
+    if j['abort'] is None:
+        if isinstance(r['code'], str):
+            errs.append('martinize2 raised %s %s (martinize2 %s)' % (r['code'], r['exc'], ' '.join(argv)))
+        elif not reached and not r['finalised'] and r['code'] != 0:
+            errs.append('martinize2 exited with %s before the -maxwarn gate: %s' % (r['code'], r['log'][-300:]))
+    else:
+        kind = 'aborted'
+        if j['abort'] == 'raise' and not isinstance(r['code'], str):
+            errs.append('harness: the run was expected to stop on an exception, exit %r' % (r['code'],))
+        if j['abort'] == 'usage' and r['code'] != 2:
+            errs.append('harness: the run was expected to stop on a usage error (exit 2), got %r' % (r['code'],))
+        if j['abort'] == 'info' and r['code'] != 0:
+            errs.append('harness: the information-only run was expected to exit 0, got %r' % (r['code'],))
+    unexpected = [n for n in new if n not in dumps]
+    bad_changed = [n for n in changed if n not in dumps]
+    if j['abort'] is not None or (not reached and not r['finalised']):
+        kind = 'aborted'
+        if r['finalised']:
+            errs.append('a run that stopped before the gate finalised the deferred writer')
+        if unexpected or bad_changed:
+            errs.append('run stopped before the gate (exit %s) left new files %s / changed files %s'
+                        % (r['code'], unexpected, bad_changed))
+    elif left:
+        kind = 'blocked'
+        if r['code'] == 0:
+            errs.append('%d warnings left after -maxwarn but exit status 0 (sys.exit(%r))' % (left, r['raw_code']))
+        if r['finalised']:
+            errs.append('%d warnings left after -maxwarn but DeferredFileWriter.write() was called' % left)
+        if unexpected or bad_changed:
+            if (j['v'] and r['code'] == 2 and not bad_changed and unexpected
+                    and all(DSSP_TMP_RE.fullmatch(n) for n in unexpected)):
+                finding = 'F-C07-2'
+            errs.append('run with %d unwaived warnings (exit %s) left new files %s / changed files %s; requested '
+                        'debug dumps: %s' % (left, r['code'], unexpected, bad_changed, dumps))
+    else:
+        kind = 'passed'
+        if r['code'] != 0:
+            errs.append('no warnings left after -maxwarn but exit code %s' % (r['code'],))
+        if not r['finalised']:
+            errs.append('no warnings left after -maxwarn but DeferredFileWriter.write() was not called')
+        if r['left_pending']:
+            errs.append('%d entries still pending after finalisation' % r['left_pending'])
+        last = {}
+        for n, k, h in r['gate']:
+            last[n] = h
+        for n, h in last.items():
+            if n not in r['after'] or sha(r['after'][n]) != h:
+                errs.append('output %r does not hold what was written for it' % n)
+            if n in pre and n not in dumps:
+                bk = first_free_backup(n, pre)
+                if r['after'].get(bk) != pre[n]:
+                    errs.append('pre-existing %r not kept byte for byte at %r' % (n, bk))
+        for n in pre:
+            if n not in last and n not in dumps and r['after'].get(n) != pre[n]:
+                errs.append('pre-existing unrelated file %r changed' % n)
+        allowed_new = set(last) | {first_free_backup(n, pre) for n in last if n in pre} | set(dumps)
+        extra_new = [n for n in new if n not in allowed_new and not (j['v'] and DSSP_TMP_RE.fullmatch(n))]
+        if extra_new:
+            errs.append('files %s appeared that were not written through the deferred writer' % extra_new)
+        if not r['gate']:
+            errs.append('successful run wrote nothing through the deferred writer')
+    for pth, m, fin in r['inside']:
+        if fin:
+            continue
+        if DSSP_TMP_RE.fullmatch(pth) or pth in dumps:
+            continue
+        errs.append('file %r in the run directory opened for writing (%s) before the gate: a writer bypasses the '
+                    'deferred writer' % (pth, m))
+    if j['need_warn'] and not nwarn:
+        errs.append('harness: the run was built to produce a counted warning and produced none (the case no longer '
+                    'exercises what it was made for)')
+    if j['want_left'] is not None and left != j['want_left']:
+        errs.append('harness: the run was built to leave exactly %d warnings, it leaves %d' % (j['want_left'], left))
+    # CountingHandler.number_of_counts_by against the plain sums over its table
+    if r['counter'] is not None:
+        ent = r['entries']
+        for lvl in (None, logging.WARNING, logging.ERROR, logging.CRITICAL + 1):
+            for typ in [None] + sorted({t for l, t, c in ent}) + ['no-such-type']:
+                want = sum(c for l, t, c in ent if (lvl is None or l >= lvl) and (typ is None or t == typ))
+                got = r['counter'].number_of_counts_by(level=lvl, type=typ)
+                counts.append('counts_by_queries')
+                if got != want:
+                    errs.append('number_of_counts_by(level=%r, type=%r) = %r, table sums to %d' % (lvl, typ, got, want))
+    counts += ['cli_exit=%s' % (r['code'],), 'cli_warnings=%d' % min(nwarn, 3),
+               'cli_leftover=%d' % (left if left % 256 == 0 else min(left, 3)),
+               'cli_deferred_outputs=%d' % len(r['gate']), 'cli_%s' % kind, 'branch:%s/%s' % (j['branch'], kind)]
+    if pre:
+        counts.append('cli_preexisting_files')
+    if dumps:
+        counts.append('cli_debug_dumps_requested=%d' % len(dumps))
+    for n, k, h in r['gate']:
+        if n.endswith('.itp'):
+            cls = n if re.match(r'(go_|virtual_sites_)', n) else 'MOLTYPE.itp'
+        elif n.endswith('.ssd'):
+            cls = 'chain_X.ssd'
+        else:
+            cls = n
+        counts.append('deferred:' + cls)
+    # ---- model input (`cliout`: the files the run writes, decided by the model from the options + observed facts)
+    ln2 = impl2 = None
+    if use_model:
+        def optp(n):
+            return parse_name(n) if n is not None else None
+        go_no = 0 if j['go'] == 'off' else (1 if j['go'] == 'internal' else 2)
+        gw = [0] if not j['go_write'] else ([1] if j['go_write'] is True else [2, parse_name(j['go_write'])])
+        ds_no = 0 if j['dssp'] == 'off' else (1 if j['dssp'] == 'mdtraj' else 2)
+        options = [optp(j['x']), optp(j['o']), j['name'], j['sep'], go_no, gw, j['water_bias'], ds_no, HAVE_MDTRAJ, j['v'],
+                   optp(j['graph']), optp(j['repair']), optp(j['canon'])]
+        top = r['top'] or {'moltypes': [], 'keys': []}
+        mol_class = []
+        if go_no == 0:
+            for mt in top['moltypes']:
+                m = re.search(r'_(\d+)$', mt)
+                mol_class.append(int(m.group(1)) if m else 0)
+        else:
+            mol_class = [0] * len(top['moltypes'])
+        tmp_names = []
+        for pth, m, fin in r['inside']:
+            if DSSP_TMP_RE.fullmatch(pth) and pth not in tmp_names:
+                tmp_names.append(pth)
+        fct = [mol_class, 'atomtypes' in top['keys'], 'nonbond_params' in top['keys'],
+               [[str(c) for c in d[1]] for d in r['dssp']], [parse_name(n) for n in tmp_names]]
+        conts = {}
+        for n in dumps + artefacts:
+            if n in r['after']:
+                conts[n] = sha(r['after'][n])
+        for n, k, h in r['gate']:
+            conts[n] = h
+        ln2 = line('cliout', logging.WARNING, ent_gate, [[[t, c] for t, c in g] for g in specs],
+                   [[parse_name(n), sha(c)] for n, c in pre.items()], options, fct,
+                   [[parse_name(n), h] for n, h in sorted(conts.items())])
+        impl2 = enc_list([enc(r['code']), enc(left), enc([[n, k] for n, k, h in r['gate']]),
+                          enc([[n, sha(r['after'][n])] for n in sorted(r['after'])])])
+    facts = {'top': r['top'], 'dssp': r['dssp'], 'artefacts': artefacts, 'gate': r['gate'], 'kind': kind,
+             'after': {n: sha(c) for n, c in r['after'].items()}, 'pre': {n: sha(c) for n, c in pre.items()},
+             'ent_gate': ent_gate, 'specs': specs, 'left': left, 'code': r['code']}
+    return {'cid': j['cid'], 'ln': ln, 'impl': impl, 'errs': errs, 'nontrivial': nwarn >= 1 or bool(dumps),
+            'finding': finding, 'counts': counts, 'use_model': use_model and not finding, 'facts': facts,
+            'kind': kind, 'branch': j['branch'], 'argv': argv, 'ln2': ln2, 'impl2': impl2, 'cov': chk.worker_lines()}
+
+
+# ---- the plan ---------------------------------------------------------------------------------------
+M3 = ['-ff', 'martini3001', '-ss', 'C']
+M22 = ['-ff', 'martini22', '-ss', 'C']
+TRP, BETA, DIPRO, HELIX = aa('mini-protein3_trp-cage'), aa('mini-protein1_betasheet'), aa('dipro-termini'), aa('mini-protein2_helix')
 WARN_OPTS = {
-    'none': (['-ff', 'martini22', '-ss', 'C', '-noscfix'], 0),
-    'scfix': (['-ff', 'martini22', '-ss', 'C', '-scfix'], 2),            # general + missing-feature
-    'mutate': (['-ff', 'martini22', '-ss', 'C', '-noscfix', '-mutate', 'A-GLY999:ALA'], 1),   # general
-    'modify': (['-ff', 'martini3001', '-ss', 'C', '-noscfix', '-modify', 'XXX99:N-ter'], 1),
-    'both': (['-ff', 'martini22', '-ss', 'C', '-scfix', '-mutate', 'A-GLY999:ALA'], 3),
+    'none': (M22 + ['-noscfix'], 0),
+    'scfix': (M22 + ['-scfix'], 2),            # general + missing-feature
+    'mutate': (M22 + ['-noscfix', '-mutate', 'A-GLY999:ALA'], 1),   # general
+    'modify': (M3 + ['-noscfix', '-modify', 'XXX99:N-ter'], 1),
+    'both': (M22 + ['-scfix', '-mutate', 'A-GLY999:ALA'], 3),
     # two warning types with different counts: a blanket allowance must be consumed across them
-    'mutate2': (['-ff', 'martini22', '-ss', 'C', '-noscfix', '-mutate', 'A-GLY998:ALA', '-mutate', 'A-GLY999:ALA'], 2),
-    'both2': (['-ff', 'martini22', '-ss', 'C', '-scfix', '-mutate', 'A-GLY998:ALA', '-mutate', 'A-GLY999:ALA'], 4),
+    'mutate2': (M22 + ['-noscfix', '-mutate', 'A-GLY998:ALA', '-mutate', 'A-GLY999:ALA'], 2),
+    'both2': (M22 + ['-scfix', '-mutate', 'A-GLY998:ALA', '-mutate', 'A-GLY999:ALA'], 4),
 }
-cli_plan = [
+jobs = []
+
+
+def J(branch, inp, extra=(), **k):
+    cid = 'cli-%d-%s' % (len(jobs), branch)
+    jobs.append(mkjob(cid, branch, inp, extra, **k))
+
+
+# (1) the gate: warning-raising options x -maxwarn on the default outputs (as before)
+for kind, mw, pre, kw in [
     ('none', [], ['cg.pdb', '#cg.pdb.1#', 'molecule_0.itp', 'other.txt'], {}),
     ('scfix', [], ['cg.pdb', 'topol.top'], {}),
     ('scfix', [['1']], [], {}),                                    # leftover exactly 1
     ('scfix', [['2']], ['topol.top', '#topol.top.1#', '#topol.top.2#'], {}),
     ('scfix', [['general'], ['missing-feature:1']], [], {}),
     ('mutate', [['missing-feature']], ['cg.pdb'], {}),           # waiver of another type: leftover 1
-    ('scfix', [], [], {'write_dump': 'graph_dump.pdb'}),
     ('both', [['2']], ['cg.pdb'], {}),                            # blanket smaller than the total over two types
     ('both2', [['3']], [], {}),
-    # first-counted type smaller than the blanket allowance, total above it (1 pdb-alternate + 2 general, -maxwarn 2)
-    ('mutate2', [['2']], [], {'altloc': True}),
-    # a warning declared in a force-field `[ warning ]` section (type 'model'): counted only after the replay of
-    # molecule.log_entries, i.e. the gate must be evaluated after that loop
-    # exactly 256 warnings left (300 pdb-alternate, -maxwarn 44): an exit status derived from the count wraps to 0
-    ('altloc256', [['44']], ['cg.pdb'], {'prot': 'dipro-termini', 'altloc': 300}),
-    ('ffwarn', [], ['cg.pdb'], {'prot': 'dipro-termini'}),
-    ('ffwarn', [['1']], ['cg.pdb'], {'prot': 'dipro-termini'}),
-]
-rng = chk.rng('cli')
-if chk.thorough:
-    for i in range(20):
-        kind = rng.choice(list(WARN_OPTS))
-        nw = WARN_OPTS[kind][1]
-        mw = rng.choice([[], [[str(rng.randint(0, 3))]], [['general']], [['general:%d' % rng.randint(0, 2)]],
-                         [['missing-feature'], [str(rng.randint(0, 2))]], [['general', 'missing-feature']]])
-        pre = rng.sample(['cg.pdb', 'topol.top', 'molecule_0.itp', '#cg.pdb.1#', '#topol.top.1#', 'x.dat'], rng.randint(0, 4))
-        cli_plan.append((kind, mw, pre, {'prot': rng.choice(PROTS)}))
-else:
-    # one seeded extra run so that different seeds exercise different combinations
-    kind = rng.choice(['scfix', 'mutate', 'both'])
-    cli_plan.append((kind, rng.choice([[[str(rng.randint(0, 3))]], [['general:%d' % rng.randint(0, 2)]], [['general']]]),
-                     rng.sample(['cg.pdb', 'topol.top', 'molecule_0.itp', '#cg.pdb.1#'], 2), {'prot': rng.choice(PROTS)}))
-try:
-    import mdtraj  # noqa
-    cli_plan.append(('dssp-v', [], ['cg.pdb'], {}))
-except Exception:  # noqa
-    chk.notes.append('mdtraj not importable: the -dssp -v combination (F-C07-2) was not run')
+]:
+    J('gate-' + kind, BETA, WARN_OPTS[kind][0], maxwarn=mw, pre=pre, need_warn=WARN_OPTS[kind][1] > 0, **kw)
+# first-counted type smaller than the blanket allowance, total above it (1 pdb-alternate + 2 general, -maxwarn 2)
+J('gate-altloc', altloc_input(PROTS[0], 1), WARN_OPTS['mutate2'][0], maxwarn=[['2']], need_warn=True, want_left=1)
+# exactly 256 warnings left (300 pdb-alternate, -maxwarn 44): an exit status derived from the count wraps to 0
+J('gate-altloc256', altloc_input('dipro-termini', 300), ['-ff', 'martini3001', '-nt', '-noscfix', '-ss', 'C'],
+  maxwarn=[['44']], pre=['cg.pdb'], need_warn=True, want_left=256)
+# a warning declared in a force-field `[ warning ]` section (type 'model'): counted only after the replay of
+# molecule.log_entries, i.e. the gate must be evaluated after that loop
+FFW = ['-ff', 'martini3001', '-nt', '-noscfix', '-ss', 'C', '-ff-dir', ffwarn_dir()]
+J('gate-ffwarn', DIPRO, FFW, pre=['cg.pdb'], need_warn=True)
+J('gate-ffwarn', DIPRO, FFW, maxwarn=[['1']], pre=['cg.pdb'], need_warn=True)
 
-cli_rows = []
-for i, (kind, mw, pre, kw) in enumerate(cli_plan):
-    kw = dict(kw)
-    prot = kw.pop('prot', PROTS[0])
-    if kind == 'dssp-v':
-        row = cli_case('cli-%d-dssp-v' % i, prot, ['-ff', 'martini22', '-dssp', '-scfix'], mw, pre, verbose=True)
-    elif kind == 'altloc256':
-        row = cli_case('cli-%d-altloc256' % i, prot, ['-ff', 'martini3001', '-nt', '-noscfix', '-ss', 'C'], mw, pre, **kw)
-        left = re.match(r'\[ \S+ (\S+) ', row[2])
-        if not left or left.group(1) != '256':
-            row = row[:3] + (row[3] + ['the altloc256 CLI case does not leave exactly 256 warnings any more (got %s)'
-                                       % (left.group(1) if left else '?')],) + row[4:]
-    elif kind == 'ffwarn':
-        row = cli_case('cli-%d-ffwarn' % i, prot, ['-ff', 'martini3001', '-nt', '-noscfix', '-ss', 'C',
-                                                  '-ff-dir', ffwarn_dir()], mw, pre, **kw)
-        if not row[4]:
-            row = row[:3] + (row[3] + ['the force-field [ warning ] section did not produce a counted warning '
-                                       '(the ffwarn CLI case no longer exercises the log-entry replay)'],) + row[4:]
+# (2) every file-writing branch of `entry`, once with an unwaived warning (-scfix: one 'general' warning with
+#     martini3001) and once with the warning waived or absent
+W1 = ['-scfix']            # + M3: exactly one warning
+
+
+def both_ways(branch, inp, extra=(), clean_pre=(), warn_pre=(), waive=True, **k):
+    J(branch, inp, list(extra) + W1, pre=warn_pre, need_warn=True, **k)
+    if waive:
+        J(branch, inp, list(extra) + W1, maxwarn=[['1']], pre=clean_pre, need_warn=True, **k)
     else:
-        row = cli_case('cli-%d-%s' % (i, kind), prot, WARN_OPTS[kind][0], mw, pre, **kw)
-    cli_rows.append(row)
-cli_models = chk.drv.ask([r[1] for r in cli_rows]) if chk.lean_ok else [None] * len(cli_rows)
-for (cid, ln, impl, errs, nontriv, finding), mo in zip(cli_rows, cli_models):
-    if finding:
-        # the model has no DSSP dump; the known finding is judged by the oracle only
-        mo = None
-    chk.case(cid, ln, impl, mo, errs, nontriv, finding=finding)
+        J(branch, inp, list(extra), pre=clean_pre, **k)
+
+
+CH2 = chains_input('dipro-termini', 'AB')
+both_ways('x-gro', DIPRO, M3, x='out.gro', clean_pre=['out.gro'])
+both_ways('no-x', DIPRO, M3, x=None, waive=False)                         # the structure goes to the file 'None'
+both_ways('no-o', DIPRO, M3, o=None, clean_pre=['molecule_0.itp'], warn_pre=['cg.pdb'])
+both_ways('x-equals-o', DIPRO, M3, x='same.out', o='same.out', waive=False)
+both_ways('go-internal-write', TRP, M3, go='internal', go_write=True, clean_pre=['contact_map_martinize.out', 'go_nbparams.itp'],
+          warn_pre=['go_atomtypes.itp'], cost=1.6)
+both_ways('go-internal-write-named', TRP, M3, go='internal', go_write='cm.out', name='prot', waive=False, cost=1.6)
+both_ways('go-internal', TRP, M3, go='internal', cost=1.4)
+both_ways('go-file', TRP, M3, go=GO_MAP, clean_pre=['molecule.itp', '#molecule.itp.1#'], cost=1.2)
+both_ways('go-water-bias', TRP, M3, go=GO_MAP, water_bias=True, waive=False, cost=1.3)
+both_ways('water-bias', TRP, M3, water_bias=True, clean_pre=['virtual_sites_atomtypes.itp'], warn_pre=['virtual_sites_nonbond_params.itp'])
+both_ways('chains', CH2, M3, waive=False)
+both_ways('sep', CH2, M3, sep=True, name='pp', clean_pre=['pp_1.itp'])
+both_ways('merge', CH2, M3 + ['-merge', 'A,B'])
+both_ways('merge-all', CH2, M3 + ['-merge', 'all'], waive=False)
+both_ways('dumps-all', DIPRO, M3, graph='g.pdb', repair='r.pdb', canon='c.pdb', clean_pre=['g.pdb'], warn_pre=['r.pdb', 'cg.pdb'])
+both_ways('dump-graph', DIPRO, M3, graph='graph_dump.pdb', waive=False)
+both_ways('dump-repair', DIPRO, M3, repair='rep.pdb', waive=False)
+both_ways('dump-canon', DIPRO, M3, canon='can.pdb')
+both_ways('dssp-exe', TRP, ['-ff', 'martini3001'], dssp=DSSP_OK, clean_pre=['chain_A.ssd'], warn_pre=['chain_A.ssd'])
+both_ways('dssp-exe-chains', chains_input('mini-protein3_trp-cage', 'AB'), ['-ff', 'martini3001'], dssp=DSSP_OK, waive=False, cost=1.5)
+both_ways('dssp-exe-verbose', TRP, ['-ff', 'martini3001'], dssp=DSSP_OK, v=1)
+# the warning comes from run_dssp itself (unsupported version), after which its savefile is opened
+J('dssp-exe-version-warning', TRP, ['-ff', 'martini3001'], dssp=DSSP_OLD, need_warn=True, want_left=1)
+J('dssp-exe-version-warning', TRP, ['-ff', 'martini3001'], dssp=DSSP_OLD, maxwarn=[['DSSP-version']], need_warn=True, want_left=0)
+if HAVE_MDTRAJ:
+    both_ways('dssp-mdtraj', TRP, ['-ff', 'martini3001'], dssp='mdtraj')
+    both_ways('dssp-mdtraj-verbose', BETA, ['-ff', 'martini3001'], dssp='mdtraj', v=1, warn_pre=['cg.pdb'])   # F-C07-2
+# options that change what is IN the files, not which files are written: one run each (for the lines of `entry`),
+# alternately blocked and passed
+J('cov-cys', TRP, M3 + ['-cys', '0.5'] + W1, need_warn=True)
+J('cov-cys-none', TRP, M3 + ['-cys', 'none', '-resid', 'input'])
+J('cov-posres', DIPRO, M3 + ['-p', 'backbone', '-pf', '500'] + W1, need_warn=True)
+J('cov-posres-all', DIPRO, M3 + ['-p', 'all', '-ignore', ','.join('X%03d' % k for k in range(900))])   # > 4000 characters of command line
+J('cov-elastic', TRP, M3 + ['-elastic', '-eunit', 'chain'] + W1, need_warn=True)
+J('cov-elastic-all', CH2, M3 + ['-elastic', '-eunit', 'all', '-eb', 'BB'])
+J('cov-elastic-region', TRP, M3 + ['-elastic', '-eunit', '1:10,11:20'] + W1, maxwarn=[['general']], need_warn=True)
+J('cov-elnedyn', TRP, ['-ff', 'elnedyn22', '-ss', 'C'], need_warn=True)        # no scfix feature: missing-feature warning
+J('cov-extdih', TRP, ['-ff', 'martini3001', '-ss', 'E', '-ed'], maxwarn=[['missing-feature']], need_warn=True)
+J('cov-collagen', DIPRO, ['-ff', 'martini3001', '-collagen'], need_warn=True)
+J('cov-idr-tune', TRP, M22 + ['-noscfix', '-idr-tune', '-id-regions', '1:5'], maxwarn=[['missing-feature:1']], need_warn=True)
+J('cov-termini-ignore', DIPRO, M3 + ['-nter', 'N-ter', '-cter', 'C-ter', '-ignore', 'HOH', '-map-dir', EMPTY_DIR,
+                                  '-ff-dir', EMPTY_DIR] + W1, need_warn=True)
+# (3) runs that stop before the gate: nothing may appear (requested dumps aside)
+J('abort-merge-conflict', CH2, M3 + ['-merge', 'all', '-merge', 'A,B'], abort='raise', graph='g.pdb', pre=['cg.pdb'])
+J('abort-elastic-go', TRP, M3 + ['-elastic'], go='internal', abort='usage', pre=['cg.pdb'])
+J('abort-unknown-ff', DIPRO, ['-ff', 'no-such-ff', '-ss', 'C'], abort='raise', graph='g.pdb')
+J('abort-unknown-from', DIPRO, ['-from', 'no-such-ff', '-ss', 'C'], abort='raise')
+J('abort-bad-ff-dir', DIPRO, M3 + ['-ff-dir', NOT_A_DIR], abort='raise')
+J('abort-missing-ff-dir', DIPRO, M3 + ['-ff-dir', os.path.join(INPUTS, 'no-such-dir')], abort='raise')
+J('abort-gro-model', os.path.join(INPUTS, 'absent.gro'), M3 + ['-model', '2'], abort='usage', pre=['topol.top'])
+J('abort-bad-map-dir', DIPRO, M3 + ['-map-dir', NOT_A_DIR], abort='raise')
+J('abort-bad-eunit', TRP, M3 + ['-elastic', '-eunit', '1:2:3'], abort='raise', canon='c.pdb')
+J('abort-list-ff', None, ['-list-ff'], abort='info', x=None, o=None, pre=['cg.pdb'])
+J('abort-list-blocks', None, ['-list-blocks'], abort='info', x=None, o=None)
+
+rng = chk.rng('cli')
+
+
+def random_job(i):
+    """a random combination of the options that decide the set of files, of a warning source and of -maxwarn"""
+    ff = rng.choice(['martini3001', 'martini22'])
+    inp = aa(rng.choice(PROTS))
+    k = {}
+    r = rng.random()
+    if r < 0.2:
+        inp, ff = TRP, 'martini3001'
+        k['go'] = rng.choice(['internal', GO_MAP])
+        if k['go'] == 'internal' and rng.random() < 0.6:
+            k['go_write'] = rng.choice([True, 'contacts.out'])
+        k['water_bias'] = rng.random() < 0.3
+        k['cost'] = 1.5
+    elif r < 0.3:
+        inp, ff = TRP, 'martini3001'
+        k['water_bias'] = True
+    elif r < 0.45:
+        inp = chains_input(rng.choice(['dipro-termini', 'mini-protein3_trp-cage']), rng.choice(['AB', 'ABC']))
+        k['sep'] = rng.random() < 0.5
+    extra = ['-ff', ff]
+    if inp.startswith(INPUTS) and rng.random() < 0.4:
+        extra += ['-merge', rng.choice(['A,B', 'all'])]
+    src = rng.choice(['none', 'scfix', 'mutate', 'mutate2', 'scfix+mutate'])
+    if 'scfix' in src:
+        extra.append('-scfix')
+    elif ff == 'martini22':
+        extra.append('-noscfix')
+    if 'mutate' in src:
+        extra += ['-mutate', 'A-GLY999:ALA']
+    if src == 'mutate2':
+        extra += ['-mutate', 'A-GLY998:ALA']
+    if rng.random() < 0.15:
+        k['dssp'] = rng.choice([DSSP_OK, DSSP_OLD] + (['mdtraj'] if HAVE_MDTRAJ else []))
+        k['v'] = int(rng.random() < 0.3)
+        if k['dssp'] == 'mdtraj' and not inp.startswith(INPUTS):
+            # (mdtraj answers 'NA' for some residues of mini-protein2_helix, which stops martinize2 on a KeyError in
+            # convert_dssp_to_martini: not a matter of C07)
+            inp = rng.choice([TRP, BETA])
+    else:
+        extra += ['-ss', 'C']
+    if rng.random() < 0.3:
+        k['name'] = rng.choice(['prot', 'mol.x', 'm'])
+    if rng.random() < 0.25:
+        k['x'] = rng.choice([None, 'out.gro', 'structure'])
+    if rng.random() < 0.2:
+        k['o'] = rng.choice([None, 'sys.top'])
+    for key in ('graph', 'repair', 'canon'):
+        if rng.random() < 0.15:
+            k[key] = rng.choice(['dump_%s.pdb' % key, 'd.pdb'])
+    mw = rng.choice([[], [[str(rng.randint(0, 3))]], [['general']], [['general:%d' % rng.randint(0, 2)]],
+                     [['missing-feature'], [str(rng.randint(0, 2))]], [['general', 'missing-feature']]])
+    names = ['cg.pdb', 'topol.top', 'molecule_0.itp', '#cg.pdb.1#', '#topol.top.1#', 'x.dat', 'go_nbparams.itp',
+             'molecule.itp', 'chain_A.ssd', 'd.pdb']
+    J('random', inp, extra, maxwarn=mw, pre=rng.sample(names, rng.randint(0, 4)), **k)
+
+
+for i in range(60 if chk.thorough else 2):
+    random_job(i)
+
+# ---- execute in forked workers (each run has a scratch directory of its own) -----------------------
+NWORKERS = max(1, int(os.environ.get('VERIF_C07_WORKERS', '8')))
+order = sorted(range(len(jobs)), key=lambda i: -jobs[i]['cost'])
+ctx = multiprocessing.get_context('fork')
+t_cli = time.time()
+results = {}
+with ctx.Pool(min(NWORKERS, len(jobs))) as pool:
+    for res in pool.imap_unordered(cli_eval, [jobs[i] for i in order], chunksize=1):
+        results[res['cid']] = res
+chk.extra['cli_wall_s'] = round(time.time() - t_cli, 1)
+chk.extra['cli_workers'] = NWORKERS
+cli_rows = [results[j['cid']] for j in jobs]
+for r in cli_rows:
+    chk.merge_worker_lines(r['cov'])
+    for key in r['counts']:
+        chk.count(key)
+cli_models = chk.drv.ask([r['ln'] for r in cli_rows]) if chk.lean_ok else [None] * len(cli_rows)
+for r, mo in zip(cli_rows, cli_models):
+    chk.case(r['cid'], r['ln'], r['impl'], mo if r['use_model'] else None, r['errs'], r['nontrivial'], finding=r['finding'])
+# the set of files: `outputs` of the model against the pending table at the gate and the directory after the run
+out_rows = [r for r in cli_rows if r['ln2'] is not None]
+out_models = chk.drv.ask([r['ln2'] for r in out_rows]) if chk.lean_ok else [None] * len(out_rows)
+for r, mo in zip(out_rows, out_models):
+    chk.count('cliout_compared')
+    chk.case(r['cid'] + '/files', r['ln2'], r['impl2'], mo, [], r['nontrivial'])
+
+# every file-writing branch must have been seen both blocked by the gate and passed
+seen = {}
+for r in cli_rows:
+    seen.setdefault(r['branch'], set()).add(r['kind'])
+matrix_errs = []
+for b, kinds in sorted(seen.items()):
+    if b.startswith(('abort-', 'gate-', 'cov-')) or b == 'random':
+        continue
+    if not {'blocked', 'passed'} <= kinds:
+        matrix_errs.append('harness: branch %s was only seen %s (needs a blocked and a passed run)' % (b, sorted(kinds)))
+chk.extra['cli_branches'] = {b: sorted(k) for b, k in sorted(seen.items())}
+chk.case('cli-branch-matrix', line('branches', sorted(seen)), 'ok' if not matrix_errs else 'incomplete', None, matrix_errs, True)
 
 shutil.rmtree(SCRATCH, ignore_errors=True)
 chk.finish()
